@@ -9,6 +9,7 @@ import Proofs.C19_Perf
 import Proofs.C19_PerfOld
 import Proofs.C19_Flatten
 import Proofs.C19_Stream
+import Proofs.C19_Lines
 namespace Atomman.C19
 open Atomman List
 set_option linter.unusedSimpArgs false
